@@ -1,7 +1,9 @@
 """C06 - semantics-neutral inference options do not change the answer (each vector judged by Semantics.tla)."""
+import json
 import random
 
-from .. import progs, semcheck
+from .. import mc, pl, progs, semcheck, tlc
+from ..tlc import MachineryError
 from . import common
 
 OPTS = ["propagate_evidence", "propagate_weights", "label_all", "avoid_name_clash", "keep_order", "keep_all",
@@ -58,8 +60,112 @@ def run(ctx):
     cov["option_pairs_covered"] = len(pairs)
     cov["option_pairs_total"] = len(OPTS) * (len(OPTS) - 1) // 2
     cov["relational_comparisons"] = ctx.cov.get("relational", 0)
+    cov["propagate_model"] = propagate_model(ctx)
     ctx.write_evidence("exploration", cov)
 
 
+# ------------------------------------------------------------------------------------------------------------------
+# Layer B: Propagate.tla (model of LogicFormula.propagate, the code behind propagate_evidence)
+FK = 1000000
+
+
+def _rand_graph(rng):
+    na = rng.randint(1, 3)
+    nc = rng.randint(2, 6)
+    while True:
+        g = [{"t": "atom", "ch": [], "id": "abc"[i], "det": 0} for i in range(na)]
+        comp = list(range(na + 1, na + nc + 1))
+        for k in comp:
+            ch = []
+            for _ in range(rng.choice([1, 2, 2, 3])):
+                c = rng.randint(1, na) if rng.random() < 0.45 else rng.choice(comp)
+                ch.append(c if rng.random() < 0.75 else -c)
+            g.append({"t": rng.choice(["conj", "disj"]), "ch": ch, "id": "", "det": 0})
+
+        def reach(k):
+            seen, todo = set(), [abs(c) for c in g[k - 1]["ch"]]
+            while todo:
+                x = todo.pop()
+                if x not in seen:
+                    seen.add(x)
+                    todo += [abs(c) for c in g[x - 1]["ch"]]
+            return seen
+        if all(not (c < 0 and (-c == k or k in reach(-c))) for k in comp for c in g[k - 1]["ch"]):
+            lits = rng.sample(range(1, na + nc + 1), rng.randint(1, min(3, na + nc)))
+            return g, [l if rng.random() < 0.5 else -l for l in lits]
+
+
+def propagate_model(ctx):
+    runs = [("PropagateMC", "Propagate_small.cfg", True), ("PropagateMC", "Propagate_guard.cfg", False)]
+    if ctx.tier == "thorough":
+        runs.append(("PropagateMC", "Propagate_full.cfg", True))
+    R = mc.check_cfgs(runs, nproc=ctx.nproc, timeout=ctx.pick(1500, 10000), parallel=2)
+    ok_runs = [cfg for _, cfg, e in runs if e]
+    cov = {"model_states": sum(R[c]["states"] for c in ok_runs),
+           "model_configs": {c: {"states": r["states"], "depth": r["depth"]} for c, r in R.items()},
+           "expected_counterexample_found": "Propagate_guard.cfg (a true disjunction makes all its children true)"}
+    H = mc.exported(R["Propagate_small.cfg"]["out"])
+    if not H:
+        raise MachineryError("no behaviours exported by Propagate_small.cfg")
+    groups = {}
+    for h in H:
+        key = json.dumps([h["g"], sorted(h["ev"])], sort_keys=True)
+        groups.setdefault(key, {"g": h["g"], "ev": sorted(h["ev"]), "ends": set()})
+        groups[key]["ends"].add((h["status"], tuple(h["current"])))
+    cases = [{"id": i, "g": v["g"], "ev": v["ev"], "ends": v["ends"]} for i, v in enumerate(groups.values())]
+    nexp = len(cases)
+    rng = random.Random(ctx.seed + 60606)
+    for _ in range(ctx.pick(2000, 30000)):
+        g, ev = _rand_graph(rng)
+        cases.append({"id": len(cases), "g": g, "ev": ev})
+    chunk = 800
+    res = pl.run_jobs([("propagate_replay", {"cases": [{k: c[k] for k in ("id", "g", "ev")} for c in cases[i:i + chunk]]})
+                       for i in range(0, len(cases), chunk)], nproc=ctx.nproc, timeout=600, chunksize=1)
+    judge, drift = [], 0
+    for r in res:
+        if r.get("error"):
+            raise MachineryError("propagate_replay failed: %s" % r)
+        for o in r["results"]:
+            ctx.evaluations += 1
+            c = cases[o["id"]]
+            what = "LogicFormula.propagate(%s) on node table %s" % (c["ev"], json.dumps([[n["t"], n["ch"] or n["id"]] for n in c["g"]]))
+            if o.get("error") or o["status"] == "malformed":
+                ctx.violation({"clause": "crash", "level": "propagate-direct", "error": (o.get("error") or "malformed result").split(":")[0]},
+                              "%s: %s" % (what, o.get("error") or o), {"prop": {"g": c["g"], "ev": c["ev"]}})
+                continue
+            if "ends" in c:
+                if (o["status"], tuple(o["current"])) in c["ends"]:
+                    continue                  # the real run IS one of the verified model behaviours
+                drift += 1
+            judge.append({"id": o["id"], "g": c["g"], "ev": c["ev"], "current": o["current"], "status": o["status"]})
+    J = tlc.judge_batch("JudgePropagate", judge, nproc=ctx.nproc, tag="c06p")
+    for c in judge:
+        if not J[c["id"]]["ok"]:
+            ctx.violation({"clause": "propagated-value-not-entailed", "level": "propagate-direct"},
+                          "LogicFormula.propagate(%s) on node table %s returned %s (%s): some assignment that satisfies the evidence gives a "
+                          "node another value, so answers differ with propagate_evidence on and off" % (
+                              c["ev"], json.dumps([[n["t"], n["ch"] or n["id"]] for n in c["g"]]), c["current"], c["status"]),
+                          {"prop": {"g": c["g"], "ev": c["ev"]}})
+    if drift:
+        print("DRIFT property=C06 %d of %d runs of the real LogicFormula.propagate are not behaviours of Propagate.tla (each judged by Layer A)" % (drift, nexp))
+    cov.update({"model_inputs_replayed": nexp, "model_behaviours": len(H), "random_graphs_judged": len(cases) - nexp, "model_drift": drift})
+    return cov
+
+
 def replay(ctx, path):
+    with open(path) as f:
+        d = json.load(f)
+    if "prop" in d["case"]:
+        c = dict(d["case"]["prop"], id=0)
+        o = pl.run_local("propagate_replay", cases=[c])["results"][0]
+        print(json.dumps(c), "\n->", o)
+        ctx.evaluations = 1
+        if o.get("error") or o["status"] == "malformed":
+            ctx.violation({"clause": "crash", "level": "propagate-direct", "error": (o.get("error") or "malformed result").split(":")[0]}, str(o), d["case"])
+        else:
+            j = tlc.judge_batch("JudgePropagate", [{"id": 0, "g": c["g"], "ev": c["ev"], "current": o["current"], "status": o["status"]}], nproc=1)[0]
+            if not j["ok"]:
+                ctx.violation({"clause": "propagated-value-not-entailed", "level": "propagate-direct"}, "not entailed", d["case"])
+        ctx.write_evidence("exploration", {"evaluations": 1, "distinct_nontrivial": 0, "samples": [d["case"]]})
+        return
     common.sem_replay(ctx, path)
